@@ -454,7 +454,7 @@ class vCategory:
 
     @staticmethod
     def from_ical(ical):
-        ical = to_unicode(ical)
+        ical = to_unicode(ical, DEFAULT_ENCODING)
         return [unescape_char(item) for item in split_on_unescaped_comma(ical)]
 
     def __eq__(self, other):
